@@ -350,7 +350,7 @@ func c06Run(w *W) {
 	}
 	rec()
 	// reader faults inside nested substitutions (three and four pieces), all schedules
-	for _, src := range []string{"$( ; a", "$( | a", "` ; a", "a $( ;", "$(a) | |", "a $( ; ; )", "a `b ;", "$( a <<E", "a | $( | b"} {
+	for _, src := range []string{"$( ; a", "$( | a", "` ; a", "a $( ;", "$(a) | |", "a $( ; ; )", "a `b ;", "$( a <<E", "a | $( | b", "` <<E `", "` 3<<U `", "` a <<E `", "$( <<E )", "` <<E"} {
 		if !w.Mine() || w.TimeUp() {
 			continue
 		}
